@@ -270,6 +270,10 @@ def run_check(mod, tier: str, seed: int, only: str = None) -> int:
             sys.stderr.write(f"HARNESS-ERROR property={pid} chunk={r['key']}\n{r['harness_error']}\n")
         return 2
 
+    if os.environ.get("VERIF_PROFILE"):
+        for r in sorted(results, key=lambda r: -r.get("wall_s", 0))[:12]:
+            sys.stderr.write(f"  profile {r['key']}: {r['wall_s']:.1f}s evals={r['evaluations']}\n")
+
     # ---- merge in plan order -----------------------------------------------------------------------------------
     tot = collections.Counter()
     counters = collections.Counter()
